@@ -71,7 +71,8 @@ Inductive c06_case :=
              (* lattice(K), lattice(K relabelled by hand), and the library's own route K3 = K[ps, pc]:
                 K3, lattice(K3), K3.extension_i(Y) for Y in sublists(attributes), K3.intention_i(X) *)
 | CMono (b : backend) (strs : list str) (k : ctx_d) (h : option Z)
-        (out : ires (lat_d * lat_d * list (list (ires bool)))).          (* lattice(~K), monotone lattice(K), its <= matrix *)
+        (out : ires (lat_d * lat_d * list (list (ires bool)) * lat_d)).
+          (* lattice(~K), M = monotone lattice(K), its <= matrix, M.T *)
 
 (* ------------------------------------------------------------------ equalities *)
 
@@ -317,10 +318,10 @@ Definition check_mono (b : backend) strs k h out : nat :=
   let K := dec_ctx strs k in
   let t := k_tbl K in
   match out with
-  | IOk (lc, m, le) =>
-      let Lc := dec_lat strs lc in let M := dec_lat strs m in
+  | IOk (lc, m, le, mt) =>
+      let Lc := dec_lat strs lc in let M := dec_lat strs m in let MT := dec_lat strs mt in
       let Mm := monotone_of K h Lc in
-      let same := lat_eqb M Mm && le_matrix_eqb le (le_model Mm) in
+      let same := lat_eqb M Mm && le_matrix_eqb le (le_model Mm) && lat_eqb MT (lattice_T M) in
       let n := length (l_concepts M) in
       let lt := fun j i => if le_at le j i then negb (le_at le i j) else false in
       let ok :=
@@ -334,6 +335,12 @@ Definition check_mono (b : backend) strs k h out : nat :=
         rels_okb lt (le_at le) n (l_children M) (rels_of m) &&
         lattice_okb (concepts_spec (tbl_invert t)) Lc && ext_rels_okb Lc (rels_of lc) &&
         l_mono M && forallb c_mono (l_concepts M) &&
+        (* M.T: extents and intents exchanged, order reversed, and an ordinary lattice on its own
+           extents: children = covers, the relation dictionaries, leq_elements and the concepts' <= all
+           agree with inclusion of the (new) extents *)
+        pairs_same (pairs_of MT) (map swap_pair (pairs_of M)) &&
+        leq_reversed (leq_of m) (leq_of mt) &&
+        children_same (l_children MT) (covers_spec (exts_of MT)) && ext_rels_okb MT (rels_of mt) &&
         names_okb (k_on K) (k_an K) M in
       with_guard (code_of same ok) (names_guard (k_an K))
   | _ => 3
@@ -366,6 +373,6 @@ Definition c06_show (c : c06_case) : c06_shown :=
   | CCompl b strs k _ => STrans (compl_model (dec_ctx strs k))
   | CRelabel b strs k ps pc _ _ _ => SLat None (concepts_spec (relabel_table ps pc (fst (fst k))))
   | CMono b strs k h out =>
-      SMono (match out with IOk (lc, _, _) => Some (monotone_of (dec_ctx strs k) h (dec_lat strs lc)) | _ => None end)
+      SMono (match out with IOk (lc, _, _, _) => Some (monotone_of (dec_ctx strs k) h (dec_lat strs lc)) | _ => None end)
             (mono_pairs_spec (fst (fst k)))
   end.
